@@ -3,7 +3,7 @@
    examples of Properties_C02.v / Properties_C03.v. *)
 From Coq Require Import QArith Qcanon.
 From Amgcl Require Import Scalar QcInst Vec Crs Kernels KernelsProofs MatOps MatOpsProofs Relax DenseSolve
-  Amg AmgExec AmgProofs AmgProofs2 AmgProofs3 AmgProofs4 AmgProofs5 AmgProofs6 AmgProofs7 AmgProofs8.
+  Amg AmgExec AmgProofs AmgProofs2 AmgProofs3 AmgProofs4 AmgProofs5 AmgProofs6 AmgProofs7 AmgProofs8 AmgProofs10 AmgOrder AmgProofs11 AmgProofs12.
 From Amgcl Require Export AmgExampleData.
 Local Close Scope Qc_scope.
 Local Close Scope Q_scope.
@@ -146,3 +146,71 @@ Lemma std_scratch_check (k : @relax_kind S) (ls : list (@ldesc S)) scr :
   scr_okb (map (fun l => nrows (ld_A l)) ls) scr = true -> scratch_wf (std_levels k ls) scr.
 Proof. intro H. apply scr_okb_ok. rewrite std_levels_sizes. exact H. Qed.
 End ScrCheck.
+
+(* checkers for the M-matrix side conditions of C02-B1 *)
+Section SpdCheck.
+Context {S : Scalar}.
+Hypothesis Seqb : seqb_spec S.
+Local Notation crs := (crs S).
+
+Definition mmatb (n : nat) (A : crs) : bool :=
+  sym_matb n A &&
+  forallb (fun i => forallb (fun j => Nat.eqb i j || negb (sltb s0 (mget A i j))) (seq 0 n)) (seq 0 n) &&
+  forallb (fun i => sltb s0 (mget A i i)) (seq 0 n) &&
+  forallb (fun i => negb (sltb (mget A i i) (Cs n A i))) (seq 0 n).
+
+Lemma mmatb_ok n A : mmatb n A = true -> mmat n A.
+Proof.
+  intro H. unfold mmatb in H.
+  apply andb_prop in H as [H H4]. apply andb_prop in H as [H H3]. apply andb_prop in H as [H1 H2].
+  rewrite forallb_forall in H2, H3, H4.
+  assert (Hin : forall i, i < n -> In i (seq 0 n)) by (intros; apply in_seq; lia).
+  split; [apply (sym_matb_ok Seqb), H1|]. split; [|split].
+  - intros i j Hi Hj Hne. specialize (H2 i (Hin i Hi)). rewrite forallb_forall in H2.
+    specialize (H2 j (Hin j Hj)). apply orb_prop in H2 as [E|E].
+    + apply Nat.eqb_eq in E. contradiction.
+    + unfold ole. apply negb_true_iff, E.
+  - intros i Hi. apply (H3 i (Hin i Hi)).
+  - intros i Hi. unfold ole. apply negb_true_iff, (H4 i (Hin i Hi)).
+Qed.
+
+Definition fdiagb (A : crs) : bool :=
+  forallb (fun i => match first_col (nth i (rows A) []) i with
+                    | Some d => seqb d (mget A i i) | None => false end) (seq 0 (nrows A)).
+
+Lemma fdiagb_ok A : fdiagb A = true -> fdiag_ok A.
+Proof.
+  intros H i Hi. unfold fdiagb in H. rewrite forallb_forall in H.
+  specialize (H i ltac:(apply in_seq; lia)).
+  destruct (first_col (nth i (rows A) []) i) as [d|]; [|discriminate]. apply Seqb in H. congruence.
+Qed.
+
+Definition lvl_spdb (A : crs) : bool := wf A && mmatb (nrows A) A && fdiagb A && gs_diag_okb A.
+
+Lemma lvl_spdb_ok A : lvl_spdb A = true -> lvl_spd A.
+Proof.
+  intro H. unfold lvl_spdb in H.
+  apply andb_prop in H as [H H4]. apply andb_prop in H as [H H3]. apply andb_prop in H as [H1 H2].
+  split; [exact H1|]. split; [apply mmatb_ok, H2|]. split; [apply fdiagb_ok, H3|apply (gs_diag_okb_ok Seqb), H4].
+Qed.
+
+Fixpoint descs_spdb (ls : list (@ldesc S)) : bool :=
+  match ls with
+  | [] => true
+  | LMid A P R :: tl => lvl_spdb A && wf P && wf R && Nat.eqb (nrows P) (nrows A) &&
+                        transpb (nrows A) (nrows R) R P && descs_spdb tl
+  | LLast A :: tl => lvl_spdb A && descs_spdb tl
+  | LSolve A :: tl => lvl_spdb A && descs_spdb tl
+  end.
+
+Lemma descs_spdb_ok ls : descs_spdb ls = true -> descs_spd ls.
+Proof.
+  induction ls as [|l tl IH]; intro H; [exact I|]. destruct l as [A P R|A|A]; simpl in *.
+  - apply andb_prop in H as [H H6]. apply andb_prop in H as [H H5]. apply andb_prop in H as [H H4].
+    apply andb_prop in H as [H H3]. apply andb_prop in H as [H1 H2].
+    split; [apply lvl_spdb_ok, H1|]. split; [exact H2|]. split; [exact H3|].
+    split; [apply Nat.eqb_eq, H4|]. split; [apply (transpb_ok Seqb), H5|apply IH, H6].
+  - apply andb_prop in H as [H1 H2]. split; [apply lvl_spdb_ok, H1|apply IH, H2].
+  - apply andb_prop in H as [H1 H2]. split; [apply lvl_spdb_ok, H1|apply IH, H2].
+Qed.
+End SpdCheck.
